@@ -222,9 +222,12 @@ Section Inv.
       + apply auth_part_inv; assumption.
       + apply (msg_part_inv st x x d Hi Hf' eq_refl (fun H => H)).
     - destruct (find_conn (s_conns st) c) as [x|]; [apply drop_inv; exact Hi | exact Hi].
-    - (* tick *)
-      apply expire_inv. destruct Hi as [[Hc Hs Hsi] Hy]. split; cbn [s_conns s_now]; [exact Hc | exact Hs |].
-      intros x Hx. specialize (Hsi x Hx). lia.
+    - (* tick: the core's timers do not touch the table *)
+      assert (Hp : Pre (mkSt (s_now st + d) (s_conns st) (s_core st))).
+      { destruct Hi as [[Hc Hs Hsi] Hy]. split; cbn [s_conns s_now]; [exact Hc | exact Hs |]. intros x Hx. specialize (Hsi x Hx). lia. }
+      pose proof (expire_inv _ Hp) as H1. destruct (expire P cf _) as [st1 o1]. cbn [fst] in H1.
+      destruct (o_tick P (s_core st1) d) as [k o2]. cbn [fst].
+      destruct H1 as [[Hc Hs Hsi] Hy]. split; [split|]; cbn [s_conns s_now]; try assumption.
   Qed.
 
   Lemma Inv_init (k : S) : Inv (init k : state A S).
